@@ -248,7 +248,7 @@ func c07Run(c *Ctx) {
 				}
 				path := strings.Join(np, ".")
 				if c.Mine() {
-					m := inst(t, strLeaves()).(map[string]interface{})
+					m := inst(t, mixLeaves()).(map[string]interface{})
 					runCase(m, nodes, path)
 				}
 				if len(np) >= maxLen {
